@@ -124,6 +124,12 @@ func dumpLoadContinuationBody(sim *core.Sim, p *c17Params, cs *core.Case) {
 			cs.Label("load into a reset world")
 		}
 	}
+	// a deep copy of what is loaded, and the alive answers at dump time (for step 6)
+	ref := ecs.EntityDump{Entities: append([]ecs.Entity{}, loadDump.Entities...), Alive: append([]uint32{}, loadDump.Alive...), Next: loadDump.Next, Available: loadDump.Available}
+	aliveAtDump := make([]bool, len(sim.B.H))
+	for ord := range sim.B.H {
+		aliveAtDump[ord] = sim.M.Ents[ord].Alive
+	}
 	if pn := core.Call(func() { L.LoadEntities(&loadDump) }); pn != nil {
 		c17Fail(sim, "LoadEntities into a fresh/reset world panicked: %v", pn)
 		return
@@ -237,6 +243,29 @@ func dumpLoadContinuationBody(sim *core.Sim, p *c17Params, cs *core.Case) {
 	da, dl := A.DumpEntities(), L.DumpEntities()
 	if msg := sameDump(&da, &dl); msg != "" {
 		c17Fail(sim, "after the continuation the dumps of source and loaded world differ: %s", msg)
+		return
+	}
+	// 6. the dump is a value: the loaded world's later life must not have changed it, and loading
+	// it once more (restoring the same checkpoint again) reproduces the state at dump time
+	if msg := sameDump(&loadDump, &ref); msg != "" {
+		c17Fail(sim, "the dump changed while the world loaded from it went on: %s", msg)
+		return
+	}
+	tw := ecs.NewWorld(ecs.NewConfig().WithCapacityIncrement(p.Cap))
+	T := &tw
+	if pn := core.Call(func() { T.LoadEntities(&loadDump) }); pn != nil {
+		c17Fail(sim, "loading the same dump a second time (into another fresh world) panicked: %v", pn)
+		return
+	}
+	for ord, h := range sim.B.H {
+		if T.Alive(h) != aliveAtDump[ord] {
+			c17Fail(sim, "the same dump loaded a second time, after the first loaded world went on: Alive(#%d %v)=%v, at dump time it was %v", ord, h, T.Alive(h), aliveAtDump[ord])
+			return
+		}
+	}
+	dt := T.DumpEntities()
+	if msg := sameDump(&dt, &ref); msg != "" {
+		c17Fail(sim, "the dump of a world loaded from the same dump a second time differs from the dump: %s", msg)
 		return
 	}
 	if cs != nil {
@@ -354,7 +383,7 @@ func TestC17(t *testing.T) {
 		Once: func(t *testing.T, st *core.Stats) {
 			t.Run("json", func(t *testing.T) { entityJSONRoundTrip(t, st) })
 		},
-		Rule: "pre-history of single and batch creations, removals, RemoveEntities and Reset (any free-list shape) on a world of generated capacity increment; then DumpEntities, optionally through encoding/json, LoadEntities into a fresh or a used-and-reset world (entities still alive, or all removed, at the Reset) of another generated capacity increment; then a generated continuation of NewEntity, NewBatchQ(n) and RemoveEntity applied to both worlds; oracle: Alive equal for every handle issued since the source's last reset and for all later ones after every continuation step, handles issued during the continuation identical in both worlds and never issued before, the loaded world's dump equals the source's (Entities, Next, Available, alive ids as a set) before and after the continuation, used count equal, loading into the non-empty source world panics and changes nothing; in a quarter of the cases the source world goes on (creations/removals) between the dump and the load, and the loaded world must equal one loaded from a deep copy taken at dump time; separately, Entity JSON round trips for arbitrary (id, generation); non-trivial = free list of length >= 2 at dump time and a continuation that creates more entities than the free list holds",
+		Rule: "the dump is a value (the loaded world's later life must not change it, and loading it a second time after the continuation reproduces the state at dump time); pre-history of single and batch creations, removals, RemoveEntities and Reset (any free-list shape) on a world of generated capacity increment; then DumpEntities, optionally through encoding/json, LoadEntities into a fresh or a used-and-reset world (entities still alive, or all removed, at the Reset) of another generated capacity increment; then a generated continuation of NewEntity, NewBatchQ(n) and RemoveEntity applied to both worlds; oracle: Alive equal for every handle issued since the source's last reset and for all later ones after every continuation step, handles issued during the continuation identical in both worlds and never issued before, the loaded world's dump equals the source's (Entities, Next, Available, alive ids as a set) before and after the continuation, used count equal, loading into the non-empty source world panics and changes nothing; in a quarter of the cases the source world goes on (creations/removals) between the dump and the load, and the loaded world must equal one loaded from a deep copy taken at dump time; separately, Entity JSON round trips for arbitrary (id, generation); non-trivial = free list of length >= 2 at dump time and a continuation that creates more entities than the free list holds",
 		Finish: func(rt *rapid.T, sim *core.Sim, tr *tracker) {
 			p := &c17Params{
 				Cap:      rapid.SampledFrom([]int{1, 2, 3, 8, 128}).Draw(rt, "loadcap"),
